@@ -158,6 +158,7 @@ func gcLocks(t *testing.T, backend sim.Backend) {
 			}
 		})
 		w.Auditor = cl.Clients[1]
+		defer w.Release()
 		var viol []string
 		var classes []string
 		nontrivial := false
